@@ -29,7 +29,11 @@ Layouts == <<
   << Feat("g1", "CDS", TRUE, 1, <<<<3, 15>>>>, 2, 0), Feat("g2", "CDS", TRUE, -1, <<<<19, 30>>>>, 1, 0) >>,
   << Feat("g1", "CDS", TRUE, 1, <<<<4, 10>>, <<11, 15>>>>, 1, 0) >>,
   << Feat("orf", "CDS", FALSE, 1, <<<<4, 15>>>>, 1, 0), Feat("nsp1", "mat", TRUE, 1, <<<<4, 9>>>>, 1, 0), Feat("g2", "CDS", TRUE, -1, <<<<19, 30>>>>, 1, 0) >>,
-  << Feat("g1", "CDS", TRUE, 1, <<<<4, 15>>>>, 1, 0), Feat("g1b", "CDS", TRUE, 1, <<<<7, 15>>>>, 1, 0) >>
+  << Feat("g1", "CDS", TRUE, 1, <<<<4, 15>>>>, 1, 0), Feat("g1b", "CDS", TRUE, 1, <<<<7, 15>>>>, 1, 0) >>,
+  \* two genes from the same start codon, the first one spliced: in a coordinate-sorted GFF3 its rows are not adjacent
+  << Feat("gL", "CDS", TRUE, 1, <<<<4, 9>>, <<13, 15>>>>, 1, 0), Feat("gS", "CDS", TRUE, 1, <<<<4, 15>>>>, 1, 0), Feat("g2", "CDS", TRUE, -1, <<<<25, 30>>, <<19, 24>>>>, 1, 0) >>,
+  \* a forward-strand join whose first segment lies downstream of its second (a gene across the origin of a circular genome)
+  << Feat("g1", "CDS", TRUE, 1, <<<<19, 21>>, <<4, 15>>>>, 1, 0) >>
 >>
 GffOnly(k) == k = 7          \* an unnamed CDS has no GenBank form
 
@@ -65,6 +69,9 @@ RunsFor(k) ==
         Run("variants", "gb", TRUE, -1, -1, FALSE, 0, 1, TRUE), Run("samvar", "gb", TRUE, -1, -1, TRUE, 6, 2, FALSE) >>)
   \o << Run("variants", "gff", FALSE, -1, -1, FALSE, 0, 1, FALSE), Run("variants", "gff", TRUE, -1, -1, FALSE, 0, 2, FALSE),
         Run("samvar", "gff", TRUE, -1, -1, FALSE, 0, 1, FALSE), Run("samvar-annoref", "gff", TRUE, -1, -1, FALSE, 0, 1, FALSE) >>
+  \o (IF k = 10 THEN <<>> ELSE      \* (rows in coordinate order do not describe a gene whose first segment lies downstream)
+      << Run("variants", "gffs", TRUE, -1, -1, FALSE, 0, 1, FALSE), Run("samvar", "gffs", TRUE, -1, -1, FALSE, 0, 2, FALSE),
+         Run("variants", "gffs", FALSE, -1, -1, TRUE, 0, 1, FALSE) >>)
 (* consecutive queries whose insertions have the same total length but sit at different places (same alignment width) *)
 ShiftGap == << <<5, 3>>, <<20, 3>> >>
 ShiftRows == << QRowV(ShiftGap, Change(17, "C"), <<"A", "-">>), QRowV(ShiftGap, Change(8, "A"), <<"-", "G">>),
